@@ -550,21 +550,21 @@ package raft
 //@   ensures [entry] Llast == old(Llast) + 1 && configuration.Index == Llast && Lterm[Llast] == r.currentTerm && Ltyp[Llast] == ConfigurationEntry && forall i int :: i <= old(Llast) ==> Lterm[i] == old(Lterm[i]) && Ltyp[i] == old(Ltyp[i]) && Ldata[i] == old(Ldata[i])
 
 //@ func Raft.submitReplicatedOperation
-//@   ensures [register] old(r.state) == Leader ==> Llast == old(Llast) + 1 && Lterm[Llast] == r.currentTerm && Ldata[Llast] == operationBytes && Ltyp[Llast] == OperationEntry && result != nil && r.operationManager.pendingReplicated[Llast] == result.responseCh && result.responseCh != nil
-//@   ensures [not-leader] old(r.state) != Leader ==> result != nil && answered[result.responseCh] && Llast == old(Llast) && r.operationManager.pendingReplicated == old(r.operationManager.pendingReplicated)
+//@   ensures [register] old(r.state) == Leader ==> Llast == old(Llast) + 1 && Lterm[Llast] == r.currentTerm && Ldata[Llast] == operationBytes && Ltyp[Llast] == OperationEntry && r.operationManager.pendingReplicated[Llast] == operationFuture.responseCh && operationFuture.responseCh != nil
+//@   ensures [not-leader] old(r.state) != Leader ==> answered[operationFuture.responseCh] && Llast == old(Llast) && r.operationManager.pendingReplicated == old(r.operationManager.pendingReplicated)
 //@   ensures [log-frame] forall i int :: i <= old(Llast) ==> Lterm[i] == old(Lterm[i]) && Ltyp[i] == old(Ltyp[i]) && Ldata[i] == old(Ldata[i])
 
 //@ func Raft.submitReadOnlyOperation
-//@   ensures [not-leader] old(r.state) != Leader ==> result != nil && answered[result.responseCh] && Llast == old(Llast)
+//@   ensures [not-leader] old(r.state) != Leader ==> answered[operationFuture.responseCh] && Llast == old(Llast)
 //@   at before-assign r.operationManager.pendingReadOnly[operation] assert [readIndex] r.state == Leader && operation != nil && operation.readIndex == r.commitIndex && !operation.quorumVerified && operation.OperationType == readOnlyType && newval == operationFuture.responseCh
 
 //@ func Raft.AddServer
 //@   at call r.appendConfiguration assert [guard] r.state == Leader && committedThisTermSpec(r) && !pendingSpec(r)
 //@   at call r.appendConfiguration assert [delta] (forall k string :: (k in configuration.Members) == (k in r.configuration.Members || k == id)) && (forall k string :: k != id && k in r.configuration.Members ==> configuration.Members[k] == r.configuration.Members[k] && configuration.IsVoter[k] == r.configuration.IsVoter[k]) && configuration.Members[id] == address && configuration.IsVoter[id] == isVoter
 //@   ensures [pending-after] Llast > old(Llast) ==> pendingSpec(r) && r.configuration.Index == Llast
-//@   ensures [answered-or-pending] Llast == old(Llast) ==> result != nil && answered[result.responseCh]
+//@   ensures [answered-or-pending] Llast == old(Llast) ==> answered[configurationFuture.responseCh]
 
 //@ func Raft.RemoveServer
 //@   at call r.appendConfiguration assert [guard] r.state == Leader && committedThisTermSpec(r) && !pendingSpec(r)
 //@   at call r.appendConfiguration assert [delta] (forall k string :: (k in configuration.Members) == (k in r.configuration.Members && k != id)) && (forall k string :: k != id && k in r.configuration.Members ==> configuration.Members[k] == r.configuration.Members[k] && configuration.IsVoter[k] == r.configuration.IsVoter[k])
-//@   ensures [answered-or-pending] Llast == old(Llast) ==> result != nil && answered[result.responseCh]
+//@   ensures [answered-or-pending] Llast == old(Llast) ==> answered[configurationFuture.responseCh]
